@@ -488,7 +488,7 @@ pub fn meta() -> CheckMeta {
         level: "exploration",
         rule: "(1) end to end: Client::create_udp_proxy -> real Server -> a recording UDP socket bound on 127.0.0.1, a random 127.a.b.c or ::1 (plus a decoy socket on the same host); lock-step exchanges of unique datagrams (direction + sequence number + PRNG body) in both directions, sizes from {1,2,255,256,257,1472,8190-8194,16383-16385,32767,32768,65000,65506,65507} and uniform 1..65507, sequences of 1-50 (the first associations run the whole boundary list both ways); each datagram must arrive once, whole, unaltered, at the right socket, nothing extra afterwards. (2) session level: the initial request and the length-prefixed records cut arbitrarily across PSH frames (length prefix split 1+1, records split anywhere, <= 65535 per frame) and delivered in 1-3-byte / large read pieces into the real handle_udp_over_tcp; also with 0.6-2.4 s pauses between the pieces of one record; every record must come out as exactly one identical datagram, and every datagram sent back by the target must appear in the tunnel as exactly one length-prefixed record. distinct_nontrivial = distinct (target, size sequences). (1b) target restarts: after one exchange the target socket is closed while one datagram is relayed (the relaying host is told 'port unreachable'), then bound again on the same address; the next three datagrams in each direction must be delivered like any others.".into(),
         assumptions: vec!["lock-step on loopback: one datagram in flight at a time, so socket-buffer loss is excluded and a 6 s wait decides 'never delivered'".into()],
-        floors: vec![("associations", 15), ("datagrams_compared", 200), ("associations_ipv6_target", 4), ("records_compared", 100), ("slow_record_streams", 3), ("target_restart_associations", 4)],
+        floors: vec![("associations", 15), ("datagrams_compared", 200), ("associations_ipv6_target", 4), ("records_compared", 100), ("slow_record_streams", 3), ("target_restart_associations", 4), ("local_sender_socket_changes_within_associations", 10)],
         exhaustive: false,
     }
 }
